@@ -1,5 +1,6 @@
 import GeomV.C11.Wire
 import GeomV.C11.Heap
+import GeomV.C11.HeapPath
 /-!
 Driver for C11.  `geomv_c11 judge` reads one history per line together with what the real
 implementation did after every operation (whole-tree dump through the `verif` hook, Size, Depth,
@@ -90,6 +91,11 @@ def specCheck (h : Hist) (s sPrev : List ObjRec) (op : Op ObjRec) (prevDump : St
 
 def opSpecStep (s : List ObjRec) (op : Op ObjRec) : List ObjRec := specStep s op
 
+/-- `PathOK` (ProofsHeapAdjust.lean) for the Insert about to be performed on the arena; `true` for a Delete -/
+def insertPathOK (heap : Heap.HTree ObjRec) (fuel : Nat) : Op ObjRec → Bool
+  | .ins o => Heap.pathOKb goHeur heap.mem (Bounded.bounds o) 1 heap.root fuel heap.root
+  | .del _ => true
+
 def judgeHist (h : Hist) (steps : List Tok) : String := Id.run do
   let cls := h.cls
   let mut model : Tree ObjRec := newTree h.minC h.maxC
@@ -124,6 +130,7 @@ def judgeHist (h : Hist) (steps : List Tok) : String := Id.run do
         | .error f => firstDiff := some s!"{at_}-model-faults-{faultStr f}-impl-does-not"
         | .ok (t', _) => model := t'
         if useHeap && firstDiff.isNone then
+          if !insertPathOK heap hfuel op then firstDiff := some s!"{at_}-pointer-level-model-insert-path-hypothesis-PathOK-fails"
           match heap.step goHeur hfuel op with
           | .error _ => firstDiff := some s!"{at_}-pointer-level-model-faults"
           | .ok (h', _) => heap := h'
@@ -147,6 +154,8 @@ def judgeHist (h : Hist) (steps : List Tok) : String := Id.run do
           | .ok (t', dr) =>
             model := t'
             if useHeap then
+              -- the path hypothesis of C11_heap_insert_nosplit_refines_partial, evaluated on the arena BEFORE the Insert (sound: pathOKb_sound)
+              if !insertPathOK heap hfuel op then firstDiff := some s!"{at_}-pointer-level-model-insert-path-hypothesis-PathOK-fails"
               match heap.step goHeur hfuel op with
               | .error _ => firstDiff := some s!"{at_}-pointer-level-model-faults-functional-model-does-not"
               | .ok (h', hdr) =>
